@@ -836,9 +836,12 @@ mod derive16 {
             let mut b: Vec<bool> = fields.iter().map(|f| !f.2).collect(); b[o] = true; variants.push(b);
         }
         let mut n = 0;
-        for present in &variants {
+        // (presence, empty): in the last variant every optional plain-text field is present with the empty text
+        let mut runs: Vec<(Vec<bool>, bool)> = variants.iter().map(|v| (v.clone(), false)).collect();
+        if fields.iter().any(|f| f.2 && f.1 == "some text") { runs.push((vec![true; fields.len()], true)); }
+        for (present, empty) in &runs {
             n += 1;
-            let pairs: Vec<(String, String)> = fields.iter().zip(present).filter(|(_, p)| **p).map(|(f, _)| (f.0.to_string(), f.1.to_string())).collect();
+            let pairs: Vec<(String, String)> = fields.iter().zip(present).filter(|(_, p)| **p).map(|(f, _)| (f.0.to_string(), if *empty && f.2 && f.1 == "some text" { String::new() } else { f.1.to_string() })).collect();
             let shown = format!("{} from {:?}", name, pairs);
             let p0: Lossy = pairs.clone().into_iter().collect();
             let x = match <T as FromDeb822Paragraph<Lossy>>::from_paragraph(&p0) {
@@ -863,7 +866,8 @@ mod derive16 {
             if qi != lossy_items(&p1) { return Err(fail(shown, "lossy and lossless to_paragraph differ", format!("{:?}", lossy_items(&p1)), format!("{:?}", qi))); }
             // update_paragraph on a paragraph that has every own field (old text) and two foreign fields
             let mut base: Vec<(String, String)> = vec![("X-Foreign-A".to_string(), "1".to_string())];
-            for f in fields { base.push((f.0.to_string(), f.1.to_string())); }
+            // the old texts differ from the new ones (plain-text fields: only in their whitespace)
+            for f in fields { base.push((f.0.to_string(), if f.1 == "some text" { "some  text".to_string() } else { f.1.to_string() })); }
             base.push(("X-Foreign-B".to_string(), "2".to_string()));
             let mut b: Lossy = base.clone().into_iter().collect();
             x.update_paragraph(&mut b);
@@ -887,6 +891,100 @@ mod derive16 {
     include!("gen_c16.rs");
 }
 
+// ---------------------------------------------------------------------------------------------------------
+// C20: typed lossy documents assembled from the field tables: parse, print, re-parse, print again; field-wise agreement
+// with the lossless reader; structurally invalid variants are rejected
+mod typed20 {
+    use super::Fail;
+    use std::str::FromStr;
+    type Row = (&'static str, &'static str, bool);
+    fn fail(input: &str, what: &str, expected: String, got: String) -> Fail { Fail { prop: "C20".into(), input: input.into(), what: what.into(), expected, got } }
+    fn para_text(rows: &[Row], present: &dyn Fn(usize) -> bool) -> String {
+        rows.iter().enumerate().filter(|(i, r)| !r.2 || present(*i)).map(|(_, r)| format!("{}: {}\n", r.0, r.1.replace('\n', "\n "))).collect()
+    }
+    /// what the lossless reader shows: every paragraph as (name, value) pairs
+    fn lossless(text: &str) -> Option<Vec<Vec<(String, String)>>> {
+        deb822_lossless::Deb822::from_str(text).ok().map(|d| d.paragraphs().map(|p| p.items().collect()).collect())
+    }
+    fn stable<T>(kind: &str, text: &str, parse: &dyn Fn(&str) -> Result<T, String>, print: &dyn Fn(&T) -> String) -> Result<(), Fail> {
+        let v = match parse(text) { Ok(v) => v, Err(e) => return Err(fail(text, &format!("{}: a well-formed document is rejected", kind), "Ok".into(), e)) };
+        let t2 = print(&v);
+        let v2 = match parse(&t2) { Ok(v) => v, Err(e) => return Err(fail(text, &format!("{}: the printed value does not parse", kind), format!("Ok for {:?}", t2), e)) };
+        let t3 = print(&v2);
+        if t3 != t2 { return Err(fail(text, &format!("{}: printing, parsing and printing again gives a different text", kind), format!("{:?}", t2), format!("{:?}", t3))); }
+        // field by field what the lossless reader shows for the same text (the sample texts are canonical)
+        let (a, b) = (lossless(text), lossless(&t2));
+        if let (Some(a), Some(b)) = (a, b) {
+            if a != b { return Err(fail(text, &format!("{}: the typed value does not carry what the lossless reader shows for the text", kind), format!("{:?}", a), format!("{:?}", b))); }
+        }
+        Ok(())
+    }
+    fn rejected<T>(kind: &str, text: &str, why: &str, parse: &dyn Fn(&str) -> Result<T, String>) -> Result<(), Fail> {
+        if parse(text).is_ok() { return Err(fail(text, &format!("{}: a document that {} is accepted", kind, why), "Err".into(), "Ok".into())); }
+        Ok(())
+    }
+    pub fn run() -> Result<usize, Fail> {
+        use super::derive16::table;
+        let mut n = 0;
+        let src = table("debian_control::lossy::Source"); let bin = table("debian_control::lossy::Binary");
+        let masks: Vec<Box<dyn Fn(usize) -> bool>> = vec![Box::new(|_| true), Box::new(|_| false), Box::new(|i| i % 2 == 0), Box::new(|i| i % 3 == 1)];
+        // ---- control files
+        let pc = |s: &str| debian_control::lossy::Control::from_str(s);
+        let dc = |v: &debian_control::lossy::Control| v.to_string();
+        for m in &masks { for nb in 0..3 {
+            let mut t = para_text(src, m.as_ref());
+            for _ in 0..nb { t.push('\n'); t.push_str(&para_text(bin, m.as_ref())); }
+            stable("lossy Control", &t, &pc, &dc)?; n += 1;
+        } }
+        let s1 = para_text(src, &|_| false); let b1 = para_text(bin, &|_| false);
+        rejected("lossy Control", &b1, "has no source paragraph", &pc)?;
+        rejected("lossy Control", &format!("{}\n{}", s1, s1), "has two source paragraphs", &pc)?;
+        rejected("lossy Control", &format!("{}\nX-Other: 1\n", s1), "has a paragraph that is neither source nor binary", &pc)?;
+        let bfull = para_text(bin, &|_| true);
+        rejected("lossy Control", &format!("{}\n{}", s1, bfull.lines().filter(|l| !l.starts_with("Package:")).map(|l| format!("{}\n", l)).collect::<String>()), "has a paragraph without Source or Package", &pc)?;
+        n += 4;
+        // ---- copyright files
+        let hd = table("debian_copyright::lossy::Header"); let fl = table("debian_copyright::lossy::FilesParagraph"); let li = table("debian_copyright::lossy::LicenseParagraph");
+        let pcr = |s: &str| debian_copyright::lossy::Copyright::from_str(s);
+        let dcr = |v: &debian_copyright::lossy::Copyright| v.to_string();
+        for m in &masks { for (nf, nl) in [(0, 0), (1, 0), (2, 1), (1, 2)] {
+            let mut t = para_text(hd, m.as_ref());
+            for _ in 0..nf { t.push('\n'); t.push_str(&para_text(fl, m.as_ref())); }
+            for _ in 0..nl { t.push('\n'); t.push_str(&para_text(li, m.as_ref())); }
+            if !t.starts_with("Format:") { continue; }
+            stable("lossy Copyright", &t, &pcr, &dcr)?; n += 1;
+        } }
+        let h1 = para_text(hd, &|_| false);
+        rejected("lossy Copyright", &format!("X-First: 1\n{}", h1), "does not start with Format:", &pcr)?;
+        rejected("lossy Copyright", &format!("{}\nX-Other: 1\n", h1), "has a paragraph that is neither Files nor License", &pcr)?;
+        n += 2;
+        // ---- single-paragraph kinds
+        macro_rules! single { ($kind:expr, $name:expr, $parse:expr, $print:expr) => {{
+            let rows = table($name);
+            for m in &masks { let t = para_text(rows, m.as_ref()); if t.is_empty() { continue; } stable($kind, &t, &$parse, &$print)?; n += 1; }
+            // a missing mandatory field is rejected
+            for (i, r) in rows.iter().enumerate() { if !r.2 {
+                let t: String = rows.iter().enumerate().filter(|(j, _)| *j != i).map(|(_, r)| format!("{}: {}\n", r.0, r.1.replace('\n', "\n "))).collect();
+                rejected($kind, &t, &format!("lacks the mandatory field {}", r.0), &$parse)?; n += 1;
+            } }
+        }}; }
+        single!("lossy apt Source", "debian_control::lossy::apt::Source", |s: &str| debian_control::lossy::apt::Source::from_str(s), |v: &debian_control::lossy::apt::Source| v.to_string());
+        single!("lossy apt Package", "debian_control::lossy::apt::Package", |s: &str| debian_control::lossy::apt::Package::from_str(s), |v: &debian_control::lossy::apt::Package| v.to_string());
+        single!("lossy DEP-3 header", "dep3::lossy::PatchHeader", |s: &str| dep3::lossy::PatchHeader::from_str(s), |v: &dep3::lossy::PatchHeader| v.to_string());
+        single!("APT sources", "apt_sources::Repository", |s: &str| apt_sources::Repositories::from_str(s), |v: &apt_sources::Repositories| v.to_string());
+        {
+            use deb822_lossless::ToDeb822Paragraph;
+            single!("lossy Removal", "debian_control::lossy::ftpmaster::Removal", |s: &str| debian_control::lossy::ftpmaster::Removal::from_str(s), |v: &debian_control::lossy::ftpmaster::Removal| { let p: deb822_lossless::lossy::Paragraph = v.to_paragraph(); p.to_string() });
+            single!("lossy Buildinfo", "debian_control::lossy::buildinfo::Buildinfo", |s: &str| debian_control::lossy::buildinfo::Buildinfo::from_str(s).map_err(|e| e.to_string()), |v: &debian_control::lossy::buildinfo::Buildinfo| { let p: deb822_lossless::lossy::Paragraph = v.to_paragraph(); p.to_string() });
+        }
+        // several repositories in one sources file
+        let rp = table("apt_sources::Repository");
+        let two = format!("{}\n{}", para_text(rp, &|_| true), para_text(rp, &|_| false));
+        stable("APT sources", &two, &|s: &str| apt_sources::Repositories::from_str(s), &|v: &apt_sources::Repositories| v.to_string())?; n += 1;
+        Ok(n)
+    }
+}
+
 const N_DOCS: usize = 4000;
 fn main() {
     let args: Vec<String> = std::env::args().collect();
@@ -902,6 +1000,9 @@ fn main() {
     if prop == "C02" {
         std::panic::set_hook(Box::new(|_| {}));
         match anytext::run_c02() { Ok(n) => { eprintln!("vwit C02: no panic in {} calls", n); return; } Err(f) => f.print_and_exit() }
+    }
+    if prop == "C20" {
+        match typed20::run() { Ok(n) => { eprintln!("vwit C20: no failing input among {} documents", n); return; } Err(f) => f.print_and_exit() }
     }
     if prop == "C16" {
         match derive16::run_all() { Ok(n) => { eprintln!("vwit C16: no failing input among {} struct values", n); return; } Err(f) => f.print_and_exit() }
